@@ -1,7 +1,7 @@
 (** Pinned statements of the C15 property theorems: compiled on every check, so a theorem cannot be
     weakened silently. *)
 From Coq Require Import Sorting.Permutation.
-From V Require Import Base.Util Gql.Ast C15.Model C15.Spec C15.Proofs C15.Proofs2 C15.Reify C15.CheckBridge C15.CheckSim C15.CheckSim2 C15.CheckRespects C15.Corr C15.Properties.
+From V Require Import Base.Util Gql.Ast C15.Model C15.Spec C15.Proofs C15.Proofs2 C15.Reify C15.CheckBridge C15.CheckSim C15.CheckSim2 C15.CheckRespects C15.EmitSim C15.Corr C15.Properties.
 
 Check (C15_routes_agree : forall st meta M D,
   model_ok M = true ->
@@ -92,7 +92,7 @@ Check (C15_root_decision_agrees : forall st meta M D,
               /\ V.C03.Model.check_operation fuel D fm op =
                    V.C03.Model.check_directives D (op_vars op) (V.C03.Model.op_location (op_type op)) (op_dirs op)
                    ++ match op_vars op with Some vs => V.C03.Model.check_variables_definition D vs | None => [] end
-                   ++ (if optype_eqb (op_type op) Subscription && Nat.ltb 1 (V.C03.Model.count_fields fuel fm [] (op_sel op))
+                   ++ (if optype_eqb (op_type op) Subscription && Nat.ltb 1 (length (V.C03.Model.collect_response_keys fuel fm [] (op_sel op) []))
                        then [V.C03.Model.err0 V.C03.Model.SubscriptionMustHaveExactlyOneRootField (op_pos op)] else [])
                    ++ V.C03.Model.check_selection_set fuel D fm (op_vars op) [] root (op_sel op))).
 Print Assumptions C15_root_decision_agrees.
@@ -127,3 +127,16 @@ Check (C15_certified_check : forall st meta M D J out_sdl out_json docs,
     forall doc, opdoc_ok (vis_of M) doc = true ->
       (V.C03.Model.check_operation_document D doc = [] <-> V.C03.Model.check_operation_document (doc_of_schema Sj) doc = [])).
 Print Assumptions C15_certified_check.
+Check (C15_emit_respects_equiv : forall st meta M Dsdl,
+  model_ok M = true -> doc_equiv Dsdl (sdl_doc M) -> parsed_positions Dsdl ->
+  exists Sj, json_route (introspect st meta M) = Ok Sj /\
+    let DA := type_system_to_ast Sj in
+    forall o tg,
+      bag_equiv_b (V.C10.Model.c_bag (V.C10.Model.make_ctx o DA tg)) (V.C10.Model.c_bag (V.C10.Model.make_ctx o Dsdl tg)) = true ->
+      forall n tA tD, vis_of M n = true ->
+        Ts.TsDen.assoc n (V.C10.Model.c_scalars (V.C10.Model.make_ctx o DA tg)) = Ts.TsDen.assoc n (V.C10.Model.c_scalars (V.C10.Model.make_ctx o Dsdl tg)) ->
+        V.C10.Model.get_type DA n = Some tA -> V.C10.Model.get_type Dsdl n = Some tD ->
+        emit_closed (vis_of M) tA = true ->
+        (forall d p nm i ds fs k, tA <> TDInterface d p nm i ds fs k) ->
+        res_shape (V.C10.Model.type_member (V.C10.Model.make_ctx o DA tg) tA) = res_shape (V.C10.Model.type_member (V.C10.Model.make_ctx o Dsdl tg) tD)).
+Print Assumptions C15_emit_respects_equiv.
